@@ -25,7 +25,6 @@ import (
 	"github.com/atlassian/gostatsd/pb"
 	"github.com/atlassian/gostatsd/pkg/statsd"
 	"github.com/atlassian/gostatsd/pkg/transport"
-	"github.com/atlassian/gostatsd/pkg/web"
 )
 
 const ip = "10.9.8.7"
@@ -369,12 +368,12 @@ func enumLine(line string) {
 			var br *bridge
 			if mode == 2 {
 				// forwarder mode: parser -> tag stage -> forwarder -> upstream ingestion -> upstream chain
-				srv, err := web.NewHttpServer(fx.Quiet(), chain, "rx", "127.0.0.1:0", false, false, true, false, nil, nil)
+				rt, err := fx.IngestionRouter(chain, "rx")
 				if err != nil {
 					problem = err.Error()
 					return
 				}
-				br = &bridge{router: srv.Router}
+				br = &bridge{router: rt}
 				v := viper.New()
 				pool := transport.NewTransportPool(fx.Quiet(), v)
 				hc, _ := pool.Get("default")
@@ -397,7 +396,7 @@ func enumLine(line string) {
 				vsched.Send(in, []*statsd.Datagram(nil))
 			case 1:
 				// HTTP ingestion of the same event
-				srv, err := web.NewHttpServer(fx.Quiet(), head, "rx", "127.0.0.1:0", false, false, true, false, nil, nil)
+				rt, err := fx.IngestionRouter(head, "rx")
 				if err != nil {
 					problem = err.Error()
 					return
@@ -411,7 +410,7 @@ func enumLine(line string) {
 				msg.Type = map[gostatsd.AlertType]pb.EventV2_AlertType{gostatsd.AlertInfo: pb.EventV2_Info, gostatsd.AlertWarning: pb.EventV2_Warning, gostatsd.AlertError: pb.EventV2_Error, gostatsd.AlertSuccess: pb.EventV2_Success}[w0.AlertType]
 				raw, _ := proto.Marshal(msg)
 				rec := httptest.NewRecorder()
-				srv.Router.ServeHTTP(rec, httptest.NewRequest("POST", "/v2/event", bytes.NewReader(raw)))
+				rt.ServeHTTP(rec, httptest.NewRequest("POST", "/v2/event", bytes.NewReader(raw)))
 				if rec.Code != 202 {
 					problem = fmt.Sprintf("/v2/event answered %d", rec.Code)
 				}
